@@ -364,6 +364,69 @@ func (t *trace) faultLanded(call int, sysname string) (sysEvent, bool) {
 	return sysEvent{}, false
 }
 
+// faultDurations: the "fault duration" dimension. A fault planned at the K-th
+// occurrence of a syscall fails exactly that occurrence, occurrences K..K+1,
+// K..K+2, or every occurrence from K on (strace when= syntax).
+var faultDurations = []string{"once", "twice", "thrice", "persistent"}
+
+func whenSpec(k int, dur string) string {
+	switch dur {
+	case "twice":
+		return fmt.Sprintf("%d..%d", k, k+1)
+	case "thrice":
+		return fmt.Sprintf("%d..%d", k, k+2)
+	case "persistent":
+		return fmt.Sprintf("%d+", k)
+	}
+	return fmt.Sprint(k)
+}
+
+// faultsLanded validates an injected run of any duration from its own log:
+// every (INJECTED) line is on the main thread and of the planned syscall, and
+// the first one lies strictly between BEGIN call / END call. It returns that
+// first event, the injected events inside the call, and whether a later
+// occurrence of the same syscall inside the call succeeded (a retry).
+func (t *trace) faultsLanded(call int, sysname string) (first sysEvent, inCall []sysEvent, retried bool, ok bool) {
+	if t.OtherInject > 0 {
+		return
+	}
+	firstIdx := -1
+	for _, e := range t.Main {
+		if e.Injected {
+			if e.Name != sysname {
+				return
+			}
+			if firstIdx < 0 {
+				firstIdx = e.Idx
+				first = e
+			}
+		}
+	}
+	if firstIdx < 0 {
+		return
+	}
+	for _, c := range t.calls() {
+		if c.I != call {
+			continue
+		}
+		for _, e := range c.Sys {
+			if e.Idx == firstIdx {
+				ok = true
+			}
+			if e.Injected {
+				inCall = append(inCall, e)
+			}
+			if ok && e.Idx > firstIdx && e.Name == sysname && !e.Injected && e.ok() {
+				retried = true
+			}
+		}
+	}
+	if !ok {
+		return sysEvent{}, nil, false, false
+	}
+	return
+}
+
 // killLanded validates a crash run: the process was killed, BEGIN call was
 // seen, END call was not, and the syscall being entered when the kill
 // arrived is the k-th syscall (0-based position pos) of the call with the
